@@ -674,6 +674,28 @@ fn csr_op(rows: &[Vec<(usize, i64)>], offset: usize, p: &[usize], ws: &[i64]) ->
     format!("csr {} {} {} {} {}", fmt_vec(&indptr), fmt_vec(&indices), fmt_vec(&data), fmt_vec(p), fmt_vec(ws))
 }
 
+/// Part ids are arbitrary `usize` values for the cut functions: ids that collide when truncated
+/// (to 8, 16, 32 bits), the extremes, and small ids mixed with them.
+fn wide_partition(ctx: &mut Ctx, n: usize) -> Vec<usize> {
+    const IDS: [usize; 12] = [
+        0,
+        1,
+        255,
+        256,
+        65_536,
+        1 << 32,
+        (1 << 32) + 1,
+        1 << 33,
+        1 << 63,
+        (1 << 63) + 1,
+        usize::MAX - 1,
+        usize::MAX,
+    ];
+    let k = 2 + ctx.rng.usize(4);
+    let pick: Vec<usize> = (0..k).map(|_| IDS[ctx.rng.usize(IDS.len())]).collect();
+    (0..n).map(|_| pick[ctx.rng.usize(k)]).collect()
+}
+
 fn rand_partition(ctx: &mut Ctx, n: usize) -> Vec<usize> {
     let k = 1 + ctx.rng.usize(5);
     match ctx.rng.usize(6) {
@@ -795,7 +817,12 @@ fn gen_csr(ctx: &mut Ctx) {
         r.sort();
     }
     ctx.count(&format!("csr_shape:{}", name));
-    let p = rand_partition(ctx, n);
+    let p = if ctx.rng.chance(1, 6) {
+        ctx.count("csr_partition:wide-ids");
+        wide_partition(ctx, n)
+    } else {
+        rand_partition(ctx, n)
+    };
     let ws = rand_weights(ctx, n);
     // streams
     let stream = ctx.rng.usize(20);
@@ -867,7 +894,12 @@ fn gen_grid(ctx: &mut Ctx) {
         (1 + ctx.rng.usize(12), 1 + ctx.rng.usize(12), None)
     };
     let n = w * h * d.unwrap_or(1);
-    let mut p = rand_partition(ctx, n);
+    let mut p = if ctx.rng.chance(1, 8) {
+        ctx.count("grid_partition:wide-ids");
+        wide_partition(ctx, n)
+    } else {
+        rand_partition(ctx, n)
+    };
     let mut ws = rand_weights(ctx, n);
     if ctx.rng.chance(1, 25) {
         ctx.count("grid_stream:malformed");
